@@ -169,6 +169,10 @@ class HistGen:
                                                b'30000:' + pk.hex().encode()[:-2] + b':d', b'-1:' + pk.hex().encode() + b':', b' 1:' + pk.hex().encode() + b':'])])
             else:
                 tags.append(rng.choice([[b'e'], [b'a'], [], [b'p', pk.hex().encode()], [b'ee', ID(1).hex().encode()]]))
+        if self.focus in ('C12', 'C13') and rng.random() < (0.3 if self.focus == 'C12' else 0.1):
+            # a request that fails late for a reason other than a foreign target: the address key of an own `a` tag
+            # exceeds what the index accepts (identifier > 476 bytes), after whatever the earlier tags already did
+            tags.append([b'a', rng.choice([b'30000', b'30023']) + b':' + pk.hex().encode() + b':' + b'z' * rng.choice([477, 480, 600])])
         ev = self.new_event(kind=5, pk=pk, tags=tags, content=b'')
         if rng.random() < 0.05:
             ev['tags'].append([b'e', ev['id'].hex().encode()])    # names itself
@@ -181,7 +185,7 @@ class HistGen:
     def next_op(self, abs_):
         rng = self.rng
         f = self.focus
-        weights = {'store': 50, 'delete': 12, 'resubmit': 12, 'remove': 6, 'vanish': 2, 'reopen': 3, 'rebuild': 2, 'xput': 2, 'neighbour': 8, 'giftwrap': 2}
+        weights = {'store': 50, 'delete': 12, 'resubmit': 12, 'remove': 6, 'vanish': 2, 'reopen': 3, 'rebuild': 2, 'xput': 2, 'neighbour': 8, 'giftwrap': 2, 'fit': 1}
         if f == 'C09':
             weights.update(neighbour=45, store=20, resubmit=15)
         if f in ('C10', 'C11', 'C12'):
@@ -193,13 +197,26 @@ class HistGen:
         if f == 'C13':
             weights.update(vanish=10, remove=12, delete=14, rebuild=0, reopen=0, xput=0)
         if f == 'C04':
-            weights.update(store=60, reopen=6)
+            weights.update(store=60, reopen=10, fit=8)
+        if f == 'C16':
+            weights.update(fit=6)
         ops = list(weights)
         op = rng.choices(ops, [weights[o] for o in ops])[0]
         if self.family and op in ('store', 'neighbour') and rng.random() < (0.8 if f == 'C09' else 0.5):
             return {'op': 'store', 'ev': self.family_event()}
         if op == 'giftwrap':
             return {'op': 'store', 'ev': self.new_event(kind=1059, pk=ID(rng.choice([0xe1, 0xe2, 0xe3])))}
+        if op == 'fit':
+            # an event that ends exactly at a multiple of the map's growth chunk (2048 bytes in a debug build): the map
+            # is completely full afterwards — or one byte short / one byte over
+            from .absstore import align8
+            start = align8(abs_.end)
+            base_len = 152                                   # no tags, empty content
+            target = ((start + base_len) // 2048 + 1) * 2048 + rng.choice([0, 0, 0, -8, 8, -1, 1])
+            clen = target - start - base_len
+            if clen >= 0:
+                return {'op': 'store', 'ev': self.new_event(kind=1, tags=[], content=b'F' * clen)}
+            return {'op': 'store', 'ev': self.new_event()}
         if op == 'store' or not self.events:
             return {'op': 'store', 'ev': self.new_event()}
         if op == 'neighbour':
@@ -495,7 +512,10 @@ def judge(c, hists, oracles, relevant=None):
                         bad('corr', '%s: impl %s model %s' % (lines[bi][:50], a[:50], b[:50]), bi, found=False)
             # ---- reply class against the abstract specification
             # (the offset inside an `ok` reply is C04's business; the other properties judge the class)
-            same_reply = (rw == pred) if c.prop == 'C04' else (rw.split(' ')[0] == pred.split(' ')[0])
+            # and "accepted or refused"; WHICH refusal is returned when several apply is the code's precedence, mirrored by
+            # the model and compared as correspondence above, not a clause of these properties)
+            okc = lambda x: x.split(' ')[0] == 'ok'
+            same_reply = (rw == pred) if c.prop == 'C04' else (okc(rw) == okc(pred))
             if 'reply' in oracles and op['op'] == 'store' and not same_reply:
                 ev = op['ev']
                 bad('oracle', 'store_event replied %s, the specification says %s (kind %d)' % (rw[:30], pred, ev['kind']), li)
@@ -602,8 +622,13 @@ def judge(c, hists, oracles, relevant=None):
                     if rw != 'ok bak=11':
                         bad('oracle', 'rebuild: %s (backup files missing?)' % rw, li)
                     sta = [strip_now(w[bi]) for (kind, arg, bi) in bat if kind == 'STA'][0]
-                    endv = int(dict(x.split('=') for x in sta.split(' '))['end'])
-                    if endv != snap['end']:
+                    try:
+                        endv = int(dict(x.split('=') for x in sta.split(' '))['end'])
+                    except Exception:
+                        endv = None
+                    if endv is None:
+                        bad('oracle', 'stats after rebuild: %s' % sta[:60], li)
+                    elif endv != snap['end']:
                         bad('oracle', 'event space after rebuild is %d bytes, the retrievable events need %d' % (endv, snap['end']), li)
             # ---- foreign deletion harmless (C10)
             if 'foreign' in oracles and op['op'] == 'store' and op['ev']['kind'] == 5:
